@@ -429,6 +429,9 @@ func genAuthScenario(r *Rng, ver string) *AuthScenario {
 	if create == nil {
 		return nil
 	}
+	authSpelled = nil
+	create = r.maybeRespell(g, create, 4) // a member name of the content in a variant spelling (gen_authvariants.go)
+	g.Create = create
 	haveCreate := coherent || !r.Chance(4)
 	if haveCreate {
 		s.Auth = append(s.Auth, create)
@@ -437,7 +440,7 @@ func genAuthScenario(r *Rng, ver string) *AuthScenario {
 	var oldPL map[string]interface{}
 	if coherent && r.Chance(85) {
 		oldPL = r.genCleanPL(authUsers, !verImpl.PrivilegedCreators())
-		if e := g.Mk(spec.MRoomPowerLevels, creator, sp(""), oldPL, nil, nil, nil); e != nil {
+		if e := r.maybeRespell(g, g.Mk(spec.MRoomPowerLevels, creator, sp(""), oldPL, nil, nil, nil), 6); e != nil {
 			s.Auth = append(s.Auth, e)
 		}
 	} else if !coherent && r.Chance(75) {
@@ -447,7 +450,7 @@ func genAuthScenario(r *Rng, ver string) *AuthScenario {
 				delete(u, creator)
 			}
 		}
-		if e := g.Mk(spec.MRoomPowerLevels, creator, sp(""), oldPL, nil, nil, nil); e != nil {
+		if e := r.maybeRespell(g, g.Mk(spec.MRoomPowerLevels, creator, sp(""), oldPL, nil, nil, nil), 6); e != nil {
 			s.Auth = append(s.Auth, e)
 		}
 	}
@@ -465,7 +468,7 @@ func genAuthScenario(r *Rng, ver string) *AuthScenario {
 		if jr == "restricted" || jr == "knock_restricted" {
 			c["allow"] = []map[string]interface{}{{"type": "m.room_membership", "room_id": "!other:hs1"}}
 		}
-		if e := g.Mk(spec.MRoomJoinRules, creator, sp(""), c, nil, nil, nil); e != nil {
+		if e := r.maybeRespell(g, g.Mk(spec.MRoomJoinRules, creator, sp(""), c, nil, nil, nil), 8); e != nil {
 			s.Auth = append(s.Auth, e)
 		}
 	}
@@ -576,7 +579,7 @@ func genAuthScenario(r *Rng, ver string) *AuthScenario {
 				tok = "tok9"
 			}
 			if r.Chance(92) {
-				if e := g.Mk(spec.MRoomThirdPartyInvite, creator, sp(tok), tpc, nil, nil, nil); e != nil {
+				if e := r.maybeRespell(g, g.Mk(spec.MRoomThirdPartyInvite, creator, sp(tok), tpc, nil, nil, nil), 15); e != nil {
 					s.Auth = append(s.Auth, e)
 				}
 			}
@@ -620,7 +623,7 @@ func genAuthScenario(r *Rng, ver string) *AuthScenario {
 		} else {
 			np = r.genPL(authUsers)
 		}
-		s.Event = g.Mk(spec.MRoomPowerLevels, sender, sp(""), np, prev, nil, nil)
+		s.Event = r.maybeRespell(g, g.Mk(spec.MRoomPowerLevels, sender, sp(""), np, prev, nil, nil), 8)
 		s.Label = "power_levels"
 	case k < 70: // create
 		c := map[string]interface{}{"creator": sender}
@@ -648,7 +651,7 @@ func genAuthScenario(r *Rng, ver string) *AuthScenario {
 		if !g.v3 && r.Chance(20) {
 			extra["room_id"] = "!room:hs2"
 		}
-		s.Event = g.Mk(spec.MRoomCreate, sender, sk, c, pv, nil, extra)
+		s.Event = r.maybeRespell(g, g.Mk(spec.MRoomCreate, sender, sk, c, pv, nil, extra), 12)
 		s.Label = "create"
 	case k < 76: // aliases
 		sk := sp(domainOf(sender))
@@ -708,6 +711,7 @@ func genAuthScenario(r *Rng, ver string) *AuthScenario {
 		}
 		s.Label += "+foreign"
 	}
+	s.Label += takeSpelled()
 	// shuffle auth events
 	for i := len(s.Auth) - 1; i > 0; i-- {
 		j := r.Intn(i + 1)
@@ -744,6 +748,10 @@ func genAuth(o *Out, tier string, r *Rng) {
 		genAuthSpace(o, tier, r)
 		return
 	}
+	if tier == "spellings" { // run by hand: the directed spelling-variant scenarios only (gen_authvariants.go)
+		genAuthSpellings(o, "quick", r)
+		return
+	}
 	n := 4000
 	if tier == "thorough" {
 		n = 150000
@@ -761,6 +769,7 @@ func genAuth(o *Out, tier string, r *Rng) {
 			o.Sample(s.Label + " " + ver + " " + string(s.Event.JSON))
 		}
 	}
+	genAuthSpellings(o, tier, r) // C07: variant spellings of content member names, directed scenarios (gen_authvariants.go)
 	genAuthSpace(o, tier, r) // C07: named witnesses + bounded-exhaustive membership rule space (gen_authspace.go)
 	// C18 / C07 (second audit round): the check asked with a querier that answers (nil, nil) — no user, no error — for a
 	// sender that is not a user ID (what a pseudo-ID homeserver's querier does for a key it does not know).  Two thirds of
